@@ -1142,9 +1142,22 @@ def search(ctx):
     spec_reqs, spec_expect = [], []
     ev_reqs, ev_meta = [], []
     rng = ctx.rng
+    try:
+        known_keys = {k["key"] for k in vlib.load_known("C05")[0]}
+    except Exception:
+        known_keys = set()
+
+    def enough():
+        """the list of failing inputs is full (vlib keeps 40), or - quick tier - five new concrete failing inputs
+        are already in hand (that many are reported): nothing more to learn from searching on"""
+        if len(ctx.violations) >= 40:
+            return True
+        return not ctx.thorough and sum(1 for v in ctx.violations if v["key"] not in known_keys) >= 5
 
     def decide(tag, sc, labelings=None):
         n, es, R, aeg, prim, kind = sc["n"], sc["edges"], sc["R"], sc["aeg"], sc["prim"], sc["kind"]
+        if enough():
+            return
         r = vlib.guarded(post_scenario, sc)
         ctx.count("search-route:" + ("primitive" if prim else "aux"))
         ctx.count("search-roots-form:" + ("none" if sc["roots"] is None else sc["rform"]))
@@ -1191,6 +1204,11 @@ def search(ctx):
                                                        roots_tok(roots_o), " ".join(str(x) for x in lab)))
                 spec_expect.append((exp, (n, tuple(es), R, aeg, repr(roots_o), lab)))
 
+    # sizes beyond the exhaustive scope, targeted labelings
+    for sc, labelings in big_scenarios(ctx):
+        decide("big-grid" if sc.get("shape") else "big-graph", sc, labelings)
+
+    # every labeling of the small scopes
     for sc in search_scopes(ctx):
         decide("graph", sc)
 
@@ -1254,10 +1272,6 @@ def search(ctx):
             if sc["hist"] != "none":
                 sc["hist"] = "double"
             decide("graph", sc)
-
-    # sizes beyond the exhaustive scope, targeted labelings
-    for sc, labelings in big_scenarios(ctx):
-        decide("big-grid" if sc.get("shape") else "big-graph", sc, labelings)
 
     # cross-checks of the trusted pieces (recorded as correspondence, never as violations)
     if m is not None and spec_reqs:
